@@ -5,6 +5,9 @@ HERE = os.path.dirname(os.path.dirname(os.path.abspath(__file__)))
 ALL = ["C%02d" % i for i in range(1, 21)]
 
 CHECKS = {
+ "C17": dict(cat="fault_enumeration", tech="strace-recorded syscall trace of the real KeyValueStorage + crash-image enumeration under a POSIX-style persistence model (every trace prefix x loss choice x model), each image read by a fresh real store; plus real SIGKILL at every interposed file-operation boundary",
+   text="For each script of sets the real store runs in a child under strace; every prefix of the recorded mkdir/openat/write/fsync/close trace is combined with every allowed loss of unsynced data (all lost, all kept, truncation only, 1-byte and half prefixes) under a weak (fsync commits earlier metadata) and a strict (new entries need a directory fsync) model; each image is materialised and read back by a fresh KeyValueStorage: acknowledged keys must read their value, other keys must be unaffected. The enumeration is exhaustive over the recorded trace for the stated loss choices; the child is additionally killed for real at each file-operation boundary.",
+   note="trusted base: the persistence model in vf/ref/persist.py, strace's ordering of syscalls across threads, deterministic pickle output.", ref="DESIGN.md §4 C17"),
  "C16": dict(cat="exploration", tech="model-based history monitor at the store boundary (Klong d,k,v / d?k; TableStorage.set/get) + accounting/heap/disk invariant monitor evaluated under the cache's own lock after every operation",
    text="Generated histories (set, get, get of a never-set key, reopen on the same directory, unload, oversize value) over flat and nested keys, values of every picklable kind and three cache-limit classes drive the real key-value store through the Klong operators and the real table store through its API; every get is compared with a dict model (table store: documented merge, existing rows win) and after every operation the accounting invariants (usage == recorded claims == real size of held entries, 0 <= usage <= limit, heap names cached entries) and the on-disk contents are checked. Held on the histories observed.",
    note="single client thread (C18 covers concurrency); keys never prefix one another; limits chosen so that one / two / all entries fit.", ref="DESIGN.md §4 C16"),
